@@ -27,6 +27,9 @@ type c10Res struct {
 	Code    uint16
 	In, Out uint64
 	Err     string
+	// the bookkeeping fields of a result: no metric is defined in terms of them
+	Attack string `json:",omitempty"`
+	Seq    uint64 `json:",omitempty"`
 }
 
 type c10Case struct {
@@ -37,7 +40,7 @@ type c10Case struct {
 
 func (r c10Res) result() *vegeta.Result {
 	return &vegeta.Result{Timestamp: time.Unix(r.Epoch, r.TS), Latency: time.Duration(r.Latency), Code: r.Code,
-		BytesIn: r.In, BytesOut: r.Out, Error: r.Err}
+		BytesIn: r.In, BytesOut: r.Out, Error: r.Err, Attack: r.Attack, Seq: r.Seq}
 }
 
 type c10Ref struct {
@@ -481,6 +484,29 @@ func TestC10Metrics(t *testing.T) {
 		}
 		c := c10Case{Results: c10GenResults(t, n)}
 		c.Order = rapid.Permutation(seqInts(n)).Draw(t, "order")
+		// attack names and sequence numbers: absent, numbered in the order of addition (what one attack's results look
+		// like in completion order, whatever their timestamps), numbered per name (several runs read round robin), or unrelated
+		switch seqKind := rapid.IntRange(0, 4).Draw(t, "seqkind"); seqKind {
+		case 0:
+		case 1, 2:
+			names := []string{"", "", "a"}[:seqKind+1]
+			next := map[string]uint64{}
+			for _, i := range c.Order {
+				r := &c.Results[i]
+				r.Attack = rapid.SampledFrom(names).Draw(t, fmt.Sprintf("attack%d", i))
+				r.Seq = next[r.Attack]
+				next[r.Attack]++
+			}
+		case 3:
+			for i := range c.Results {
+				c.Results[i].Attack, c.Results[i].Seq = "run", uint64(i)
+			}
+		default:
+			for i := range c.Results {
+				c.Results[i].Attack = rapid.SampledFrom([]string{"", "a", "b"}).Draw(t, fmt.Sprintf("attack%d", i))
+				c.Results[i].Seq = rapid.Uint64Range(0, 5).Draw(t, fmt.Sprintf("seq%d", i))
+			}
+		}
 		switch rapid.IntRange(0, 3).Draw(t, "closek") {
 		case 0:
 		case 1:
